@@ -317,6 +317,9 @@ func (cs *ContractSet) addClause(cur **Contract, pkgPath, pos, text string) erro
 		if c.AtCall == nil {
 			c.AtCall = map[string][]*Clause{}
 		}
+		if !(strings.Count(callee, ".") >= 2 && !strings.HasPrefix(callee, "(")) {
+			callee = qualify(pkgPath, callee)
+		}
 		c.AtCall[callee] = append(c.AtCall[callee], cl)
 	case "rely":
 		switch {
